@@ -1,11 +1,12 @@
 \* two subjects, crossed registrations (the hash of subject 1 also registered for subject 2), no clock
 SPECIFICATION MCSpec
-CONSTANTS AlreadyChecked = TRUE PkPerAuthority = TRUE CheckSubject = TRUE CheckPermission = TRUE Window = 300 RespCap = 10 FitAll = 8
+CONSTANTS AlreadyChecked = TRUE PkPerAuthority = TRUE CheckSubject = TRUE CheckPermission = TRUE CommitBeforeSend = TRUE Window = 300 RespCap = 10 FitAll = 8
   Regs = {1, 2, 3} Senders = {1, 2} TokIdx = {4} MdIdx = {2, 6, 7, 11} AttIdx = {1} MissIdx = {1}
-  Ticks = {} OwnerPeers = {} KnownVals = {} AttSend = {} RegFirst = FALSE
-  MaxReg = 3 MaxMsg = 3 MaxTick = 0 MaxOwn = 0
+  Ticks = {} OwnerPeers = {} KnownVals = {} AttSend = {} RegFirst = FALSE FaultTabs = {}
+  MaxReg = 3 MaxMsg = 3 MaxTick = 0 MaxOwn = 0 MaxFault = 0
 INVARIANT TypeOK
 INVARIANT SignsOnlyConsented
 INVARIANT StoresOnlyValidlySigned
 INVARIANT TokensOnlyUpToPermitted
 INVARIANT TreesVerified
+INVARIANT SentOnlyRecorded
